@@ -69,14 +69,17 @@ TRUSTED = [
     "Imputer, (Partial)AutoCorrelationTransformer, CosineTransformer are not modelled: for them only the oracle (shift equivariance on the real code) runs",
 ]
 ASSUMPTIONS = [
-    "integer (Int64/Range) time index; Period/Datetime indexes are out of scope",
+    "integer (Int64/Range) time index for all transformers; in addition the (conditional) deseasonalizer runs on an hourly / daily DatetimeIndex and a daily PeriodIndex (time points are mapped to integer steps for the model and the oracle); other transformers are not exercised on time-stamp indexes",
+    "multivariate DataFrame input (adaptor, log, cos, Hampel, Imputer) is judged by the oracle only (round trip, index, shift and equality of every column with the same column transformed alone); the Lean model is univariate",
     "non-finite floats (NaN, +-inf) are one value `none`; rounding is not modelled (DESIGN 4.2); real-vs-model values agree within 1e-9 relative",
     "boxcox_roundtrip assumes scipy's pair satisfies inv_boxcox(boxcox(x)) = x wherever boxcox(x) is finite (stated hypothesis, exercised by the oracle within 1e-7)",
     "the phase clause is stated for stretches of time (labels t, t+1, ...): on a gapped or duplicated integer index the code aligns by POSITION (modelled and compared, not judged by the oracle)",
     "duplicate labels inside a batch passed to Detrender.fit/update are not modelled (pandas combine_first semantics); such cases are not sent to the model",
     "for ACF/PACF the output index is the lag, not time: the shift clause is read as 'output unchanged'",
 ]
-RULE = ("parameter forms: a share of all cases (half of the OptionalPassthrough ones) passes every parameter in an equal-valued form (np.bool_ or 0/1 "
+RULE = ("multivariate stream: 2-3 column frames with string / integer column labels in non-sorted order for the adaptor (Standard/MinMax/Robust/log1p), log, cos, "
+        "Hampel and 8 Imputer methods; time-index stream: (conditional) deseasonalizer on hourly / daily DatetimeIndex and daily PeriodIndex, periods 4,5,7,9,12,24, "
+        "stretches starting hours to days before / after the training start; parameter forms: a share of all cases (half of the OptionalPassthrough ones) passes every parameter in an equal-valued form (np.bool_ or 0/1 "
         "for flags, np.int64 / np.int32 for sp, degree, window, lags, np.float64, np.str_ for option names); "
         "second object: a share of all cases (and a dedicated stream: every class x same / default / neighbouring parameters) has another object "
         "of the same class constructed, fitted, updated and used on other data between the operations of the case's object; "
@@ -258,17 +261,50 @@ def _has_f32(case):
     return any(isinstance(o["z"], dict) and o["z"].get("dt") == "float32" for o in case["ops"])
 
 
+_BASE = pd.Timestamp("2021-03-01")
+_STEP = {"dth": pd.Timedelta(hours=1), "dtd": pd.Timedelta(days=1)}
+
+
+def _time_index(labels, itype):
+    """integer step k <-> time point: hourly / daily DatetimeIndex or daily PeriodIndex starting 2021-03-01"""
+    if itype in _STEP:
+        return pd.date_range(_BASE + labels[0] * _STEP[itype], periods=len(labels), freq="h" if itype == "dth" else "D")
+    return pd.period_range(pd.Period("2021-03-01", freq="D") + labels[0], periods=len(labels), freq="D")
+
+
+def _index_labels(idx):
+    """integer labels of a returned index (time points are mapped back to integer steps), or None"""
+    if isinstance(idx, pd.DatetimeIndex):
+        step = pd.Timedelta(hours=1) if (len(idx) and (idx.freqstr or "").lower().startswith("h")) or any(ts.hour for ts in idx) else pd.Timedelta(days=1)
+        if _CUR["itype"] in _STEP:
+            step = _STEP[_CUR["itype"]]
+        return [int(round((ts - _BASE) / step)) for ts in idx]
+    if isinstance(idx, pd.PeriodIndex):
+        return [int((p - pd.Period("2021-03-01", freq="D")).n) for p in idx]
+    if idx.dtype.kind not in "iu":
+        return None
+    return [int(v) for v in idx]
+
+
+_CUR = {"itype": "range"}
+
+
 def _mk_input(inp, itype, shift):
     if inp == "notseries":
         return [1.0, 2.0, 3.0]
     if inp == "fidx":
         return pd.Series([1.0, 2.0], index=pd.Index([0.5, 1.5]))
     labels = [int(l) + shift for l in inp["l"]]
-    vals = np.array([np.nan if v is None else float(v) for v in inp["v"]], dtype="float64").astype(_dt(inp))
-    if itype == "range" and labels and _contig(labels):
+    if itype in ("dth", "dtd", "per") and labels and _contig(labels):
+        idx = _time_index(labels, itype)
+    elif itype == "range" and labels and _contig(labels):
         idx = pd.RangeIndex(labels[0], labels[-1] + 1)
     else:
         idx = pd.Index(np.array(labels, dtype="int64"))
+    if "cols" in inp:      # multivariate: one list of values per column, columns in the given (not sorted) order
+        data = {c: np.array([np.nan if v is None else float(v) for v in col], dtype="float64") for c, col in zip(inp["cols"], inp["vv"])}
+        return pd.DataFrame(data, index=idx, columns=list(inp["cols"]))
+    vals = np.array([np.nan if v is None else float(v) for v in inp["v"]], dtype="float64").astype(_dt(inp))
     return pd.Series(vals, index=idx)
 
 
@@ -278,12 +314,26 @@ def _fl(x):
 
 
 def _ser_token(r):
+    if isinstance(r, pd.DataFrame):
+        try:
+            labels = _index_labels(r.index)
+        except Exception:
+            labels = None
+        if labels is None:
+            return "?index"
+        cols = []
+        for c in r.columns:
+            v = r[c].to_numpy()
+            if v.dtype.kind not in "fiub":
+                return "?dtype:" + str(v.dtype)
+            cols.append("-" if len(v) == 0 else ",".join(_fl(x) for x in v))
+        return "F;%s;%s;%s" % (show_ints(labels), "~".join(str(c) for c in r.columns), ";".join(cols))
     if not isinstance(r, pd.Series):
         return "?" + type(r).__name__
     try:
-        if r.index.dtype.kind not in "iu":
+        labels = _index_labels(r.index)
+        if labels is None:
             return "?index:" + str(r.index.dtype)
-        labels = [int(v) for v in r.index]
     except Exception:
         return "?index"
     vals = r.to_numpy()
@@ -311,7 +361,7 @@ def _apply(t, op, z):
         r = t.fit_transform(z)
     else:
         raise ValueError(k)
-    return _ser_token(r), (r if isinstance(r, pd.Series) else None)
+    return _ser_token(r), (r if isinstance(r, (pd.Series, pd.DataFrame)) else None)
 
 
 def _quiet_apply(t, op, z):
@@ -326,6 +376,7 @@ def _quiet_apply(t, op, z):
 
 def _run_hist(case, shift, extras=None, with_pre=True, with_other=True, plain=False):
     cfg, itype = case["cfg"], case.get("itype", "range")
+    _CUR["itype"] = itype
     form = None if plain else case.get("pform")
     other = case.get("other") if with_other else None
     tB = [None]
@@ -437,6 +488,9 @@ def run_real(case):
             if not main or main[0].startswith(("E:", "?")) or case["ops"][0]["op"] not in ("fit", "ft"):
                 return "SKIP-PRE @@ {}"
             extras["fresh"] = " ".join(_run_hist(case, 0, None, with_pre=False, with_other=False))
+        if _is_frame_case(case):
+            ncol = max(len(o["z"]["cols"]) for o in case["ops"] if isinstance(o["z"], dict) and "cols" in o["z"])
+            extras["percol"] = [" ".join(_run_hist(_column_case(case, j), 0, None)) for j in range(ncol)]
         if case.get("pform"):
             extras["plain"] = " ".join(_run_hist(case, 0, None, plain=True))
         if case.get("other"):
@@ -604,10 +658,25 @@ class _LibraryRaised(Exception):
     pass
 
 
+def _is_frame_case(case):
+    return any(isinstance(o["z"], dict) and "cols" in o["z"] for o in case["ops"])
+
+
+def _column_case(case, j):
+    """the same history on column j alone (a univariate series)"""
+    ops = []
+    for o in case["ops"]:
+        z = o["z"]
+        if isinstance(z, dict) and "cols" in z:
+            z = {"l": z["l"], "v": z["vv"][j]}
+        ops.append(dict(o, z=z))
+    return {k: v for k, v in dict(case, ops=ops).items() if k not in ("pre", "other")}
+
+
 def to_line(case):
     cfg = case["cfg"]
-    if not _modelled(cfg):
-        return None
+    if not _modelled(cfg) or _is_frame_case(case):
+        return None          # the model is univariate: multivariate frames are judged by the oracle (incl. per-column equality)
     itype = case.get("itype", "range")
     det = cfg[0] == "det" or (cfg[0] == "pass" and cfg[2][0] == "det")
     sh = _Shadow(cfg)
@@ -679,6 +748,11 @@ def _parse_tok(tok):
         return ("ok",)
     if tok.startswith("E:"):
         return ("err", "E:other" if tok.startswith("E:other") else tok)
+    if tok.startswith("F;"):
+        parts = tok.split(";")
+        labels = [] if parts[1] == "-" else [int(x) for x in parts[1].split(",")]
+        cols = [[] if c == "-" else [None if x == "nan" else x for x in c.split(",")] for c in parts[3:]]
+        return ("frame", labels, cols, parts[2].split("~"))
     if tok.startswith("?") or ":" not in tok:
         return ("odd", tok)
     ls, vs = tok.split(":")
@@ -696,10 +770,23 @@ def _num(x):
     return float(x)
 
 
+def _vals_close(xs, ys, tol):
+    if len(xs) != len(ys):
+        return False
+    for a, b in zip(xs, ys):
+        if (a is None) != (b is None):
+            return False
+        if a is not None and abs(_num(a) - _num(b)) > tol * max(1.0, abs(_num(b))):
+            return False
+    return True
+
+
 def _tok_close(rt, mt, tol=1e-9):
     r, m = _parse_tok(rt), _parse_tok(mt)
     if r[0] != m[0]:
         return False
+    if r[0] == "frame":
+        return r[1] == m[1] and r[3] == m[3] and len(r[2]) == len(m[2]) and all(_vals_close(a, b, tol) for a, b in zip(r[2], m[2]))
     if r[0] == "ser":
         if r[1] != m[1] or len(r[2]) != len(m[2]):
             return False
@@ -739,6 +826,81 @@ def _vals_of(inp):
     return [None if v is None else float(v) for v in inp["v"]]
 
 
+def _oracle_frames(case, site, main, shifted, extras):
+    """multivariate input (a DataFrame with columns in a non-sorted order): the clauses per column"""
+    fails = []
+
+    def add(key, msg):
+        if not any(k == key for k, _ in fails):
+            fails.append((key, msg))
+
+    cfg, ops = case["cfg"], case["ops"]
+    P = [_parse_tok(t) for t in main]
+    tol = RT_TOL
+    ins = []
+    for i, op in enumerate(ops):
+        z = op["z"]
+        if op["op"] == "inv" and op.get("ref") is not None and op["ref"] < i and P[op["ref"]][0] == "frame":
+            ins.append((P[op["ref"]][1], [[_num(v) for v in c] for c in P[op["ref"]][2]]))
+        elif isinstance(z, dict) and "cols" in z:
+            ins.append((list(z["l"]), [[None if v is None else float(v) for v in c] for c in z["vv"]]))
+        else:
+            ins.append(None)
+    percol = [pc.split(" ") for pc in extras.get("percol", [])]
+    for i, op in enumerate(ops):
+        if P[i][0] != "frame" or ins[i] is None:
+            if P[i][0] == "err" and ins[i] is not None and percol and all(len(pc) == len(main) and _parse_tok(pc[i])[0] == "ser" for pc in percol):
+                add(site + ":multivariate-differs-from-per-column", "op %d (%s): the frame is rejected (%s) but every column alone is accepted" % (i, op["op"], main[i]))
+            continue
+        labels, cols = P[i][1], P[i][2]
+        # index: exactly the input's time index
+        if op["op"] in ("tr", "ft") and cfg[0] in TAGGED_SAME_INDEX and labels != ins[i][0]:
+            add(site + ".transform:index-changed", "op %d: input index %r, output index %r" % (i, ins[i][0], labels))
+        # every column is transformed like the same column alone
+        if percol and len(cols) == len(percol):
+            for j, pc in enumerate(percol):
+                u = _parse_tok(pc[i]) if len(pc) == len(main) else ("odd",)
+                if u[0] != "ser" or u[1] != labels or not _vals_close(cols[j], u[2], 1e-9):
+                    add(site + ":multivariate-differs-from-per-column",
+                        "op %d (%s) column #%d (%r of %r): in the frame -> %s ; the column alone -> %s"
+                        % (i, op["op"], j, P[i][3][j] if j < len(P[i][3]) else "?", case["ops"][0]["z"].get("cols"), ",".join(map(str, cols[j]))[:120], pc[i][:120] if len(pc) == len(main) else "?"))
+                    break
+        # round trip per column
+        if op["op"] == "inv" and op.get("ref") is not None:
+            k = op["ref"]
+            if k < i and ops[k]["op"] in ("tr", "ft") and P[k][0] == "frame" and ins[k] is not None \
+                    and not any(o["op"] in ("fit", "upd", "ft") for o in ops[k + 1:i]):
+                zl, zc = ins[k]
+                if labels != zl or len(cols) != len(zc):
+                    add(site + ".inverse_transform:roundtrip-index", "ops %d,%d: z index %r / %d columns, inverse(transform(z)) index %r / %d columns" % (k, i, zl, len(zc), labels, len(cols)))
+                else:
+                    for j in range(len(zc)):
+                        for l, x, tv, bv in zip(zl, zc[j], P[k][2][j], cols[j]):
+                            if x is None or tv is None:
+                                continue
+                            if bv is None or abs(_num(bv) - x) > tol * max(1.0, abs(x)):
+                                add(site + ".inverse_transform:roundtrip-values",
+                                    "ops %d,%d column #%d label %d: z=%r transform=%s inverse(transform)=%s" % (k, i, j, l, x, tv, bv))
+                                break
+    # shifting the integer time index
+    if shifted is not None and len(shifted) == len(main):
+        c = int(case["shift"])
+        for i, (a, b) in enumerate(zip(main, shifted)):
+            pa = _parse_tok(a)
+            if pa[0] == "frame":
+                parts = a.split(";")
+                parts[1] = show_ints([l + c for l in pa[1]])
+                exp = ";".join(parts)
+            elif pa[0] == "ser":
+                exp = show_ints([l + c for l in pa[1]]) + ":" + a.split(":")[1]
+            else:
+                exp = a
+            if not _tok_close(b, exp, 1e-9):
+                add(site + ":shift-changes-result", "op %d (%s): %s vs shifted by %d: %s" % (i, ops[i]["op"], a[:160], c, b[:160]))
+                break
+    return fails
+
+
 def oracle(case, out):
     fails = []
     cfg = case["cfg"]
@@ -750,6 +912,8 @@ def oracle(case, out):
     if len(main) != len(ops):
         return [(site + ":harness-output-length", "got %d tokens for %d ops" % (len(main), len(ops)))]
     extras = json.loads(extras or "{}")
+    if _is_frame_case(case):
+        return _oracle_frames(case, site, main, shifted, extras)
     rt_tol = 1e-5 if extras.get("f32") else RT_TOL      # single-precision inputs: float32 rounding
     ph_tol = 1e-5 if extras.get("f32") else PH_TOL
     P = [_parse_tok(t) for t in main]
@@ -1009,7 +1173,7 @@ def nontrivial(case, out):
     if out.startswith(("SKIP-PRE", "BUILD-")):
         return False
     main, _, _ = _split_out(out)
-    return any(_parse_tok(t)[0] == "ser" and len(_parse_tok(t)[1]) > 0 for t in main)
+    return any(_parse_tok(t)[0] in ("ser", "frame") and len(_parse_tok(t)[1]) > 0 for t in main)
 
 
 def _cfg_tag(cfg):
@@ -1053,6 +1217,10 @@ def features(case, out):
                     f.append("stretch-before-training")
     if case.get("itype") == "int64":
         f.append("int64index")
+    if case.get("itype") in ("dth", "dtd", "per"):
+        f.append("time-index=" + case["itype"])
+    if _is_frame_case(case):
+        f.append("multivariate:" + cfg[0])
     for o in case["ops"]:
         if isinstance(o["z"], dict) and o["z"].get("dt"):
             f.append("dtype=" + _dt(o["z"]) + ("(train)" if o["op"] in ("fit", "ft") else ""))
@@ -1441,6 +1609,60 @@ def _gen_history(tier, rng, cases):
                 cases.append(case)
 
 
+def _frame(rng, start, n, cols, nan_p=0.0, positive=True):
+    vv = []
+    for j, _c in enumerate(cols):
+        scale = [1, 100, 7][j % 3]
+        col = [scale * (_dy(rng) if positive else rng.randrange(-160, 161) / 4) + 50 * j for _ in range(n)]
+        vv.append([None if (rng.random() < nan_p and 0 < i < n - 1) else v for i, v in enumerate(col)])
+    return {"l": list(range(start, start + n)), "cols": list(cols), "vv": vv}
+
+
+def _gen_frames(tier, rng, cases):
+    """multivariate frames (2-3 columns, string and integer labels, NOT in sorted order) for the transformers that accept them"""
+    colsets = [["temp", "load"], ["b", "a", "c"], [2, 0, 1], [1, 0], [10, 3], ["y", "x"], ["a", "b"]]
+    cfgs = [["ad", "standard"], ["ad", "minmax"], ["ad", "robust"], ["ad", "log1p"], ["log"], ["cos"], ["hampel", 3, 3, HAMPEL_K]]
+    cfgs += [["imputer", m] for m in ("linear", "mean", "median", "ffill", "bfill", "constant", "nearest", "drift")]
+    reps = 2 if tier == "quick" else 14
+    for cfg in cfgs:
+        for cols in colsets:
+            for _ in range(reps):
+                t0 = rng.choice([-4, 0, 7])
+                n = rng.randrange(6, 14)
+                nanp = 0.2 if cfg[0] == "imputer" else 0.0
+                pos = cfg[0] != "cos"
+                z1 = _frame(rng, t0, n, cols, nanp, pos)
+                z2 = _frame(rng, t0 + rng.randrange(-3, n + 3), rng.randrange(2 if cfg[0] != "hampel" else 5, 8), cols, nanp, pos)
+                ops = [{"op": "fit", "z": z1}, {"op": "tr", "z": z1}, {"op": "inv", "z": z1, "ref": 1},
+                       {"op": "tr", "z": z2}, {"op": "inv", "z": z2, "ref": 3}]
+                if rng.random() < 0.3:
+                    ops = [{"op": "ft", "z": z1}, {"op": "inv", "z": z1, "ref": 0}, {"op": "tr", "z": z2}, {"op": "inv", "z": z2, "ref": 2}]
+                cases.append({"cfg": cfg, "itype": rng.choice(["range", "int64"]), "shift": rng.choice([0, 3, -5]), "ops": ops})
+
+
+def _gen_time_index(tier, rng, cases):
+    """(conditional) deseasonalizer on an hourly / daily DatetimeIndex and a daily PeriodIndex: periods that do not
+    divide a day (5, 7, 9) and ones that do (4, 12, 24); stretches starting days before / after the training start"""
+    reps = 2 if tier == "quick" else 10
+    for itype in ("dth", "dtd", "per"):
+        for sp in (4, 5, 7, 9, 12, 24):
+            for m in ("A", "M"):
+                for _ in range(reps):
+                    t0 = rng.choice([-30, 0, 17])
+                    n = 2 * sp + rng.randrange(0, sp + 2)
+                    z1 = _seasonal_series(rng, t0, n, sp)
+                    cfg = ["des", sp, m] if rng.random() < 0.7 else ["cdes", sp, m, rng.choice(["true", "default"])]
+                    ops = [{"op": "fit", "z": z1}, {"op": "tr", "z": z1}, {"op": "inv", "z": z1, "ref": 1}]
+                    for _k in range(3):
+                        off = rng.choice([rng.randrange(0, 24), 24 + rng.randrange(0, 60), 24 * rng.randrange(2, 9) + rng.randrange(0, 24), -rng.randrange(1, 80)])
+                        zz = _series(rng, t0 + off, rng.randrange(1, sp + 3))
+                        ops.append({"op": "tr", "z": zz})
+                        ops.append({"op": "inv", "z": zz, "ref": len(ops) - 1})
+                        if rng.random() < 0.3:
+                            ops.append({"op": "upd", "z": _series(rng, t0 + n + rng.randrange(0, 40), 2), "up": None})
+                    cases.append({"cfg": cfg, "itype": itype, "shift": rng.choice([0, 0, 31, -50]), "ops": ops})
+
+
 def _gen_pass(tier, rng, cases):
     inners = [["des", 2, "A"], ["des", 3, "M"], ["cdes", 2, "A", "true"], ["det", 1], ["det", 0], ["bc"], ["log"],
               ["ad", "minmax"], ["ad", "binarizer"], ["hampel", 3, 3, HAMPEL_K]]
@@ -1581,6 +1803,7 @@ def gen_cases(tier, rng):
     _gen_positional(tier, rng, cases)
     _gen_random(tier, rng, cases)
     _gen_random(tier, rng, cases, malformed=True)
+    _gen_time_index(tier, rng, cases)
     _gen_history(tier, rng, cases)
     _gen_other(tier, rng, cases)
     # a second object of the same class used in between, for a share of all other cases
@@ -1596,11 +1819,12 @@ def gen_cases(tier, rng):
     for c in cases:
         if rng.random() < 0.25:
             _attach_history(rng, c)
+    _gen_frames(tier, rng, cases)        # after the post-passes: frames keep builtin parameters, float64 values, one object
     # dtype of the values: training series and later stretches vary independently
     # (float64 / float32 / int64 / int32; integer dtypes carry integer-valued data)
     n_counts = sum(1 for c in cases if any(isinstance(o["z"], dict) and "dt" in o["z"] for o in c["ops"]))
     for c in cases:
-        if not any(isinstance(o["z"], dict) and "dt" in o["z"] for o in c["ops"]):
+        if not _is_frame_case(c) and not any(isinstance(o["z"], dict) and "dt" in o["z"] for o in c["ops"]):
             _vary_dtypes(rng, c)
     return cases
 
@@ -1650,6 +1874,11 @@ def shrink(c):
             yield _drop_op(c, i)
     for i, o in enumerate(ops):
         z = o["z"]
+        if _is_series(z) and "cols" in z:
+            if len(z["l"]) > 2:
+                for sl in (slice(0, -1), slice(1, None)):
+                    yield dict(c, ops=ops[:i] + [dict(o, z=dict(z, l=z["l"][sl], vv=[col[sl] for col in z["vv"]]))] + ops[i + 1:])
+            continue
         if _is_series(z) and len(z["l"]) > 1:
             for cut in ({"l": z["l"][:-1], "v": z["v"][:-1]}, {"l": z["l"][1:], "v": z["v"][1:]}):
                 yield dict(c, ops=ops[:i] + [dict(o, z=cut)] + ops[i + 1:])
